@@ -8,13 +8,16 @@
      model side: the models that exist (AccessIter / IntoIter over IntVector, bit_vector::Iter,
                  bit_vector::OneIter<Identity|Complement> from every entry point, and the four iterators
                  of the run-length vector - Model/RL.v + Model/RLIters.v - on the vector rebuilt by the
-                 model's builder with the harness's calls) replayed on the same calls. For the iterator
-                 types without a model (sparse, wavelet matrix) the model side is vacuous. *)
+                 model's builder with the harness's calls; ValueIter / IntoIter / AccessIter of the wavelet
+                 matrix - Model/WM.v + Model/WMIters.v - on the matrix rebuilt by the model's From<Vec<T>>)
+                 replayed on the same calls. For the iterator types without a model (sparse) the model side
+                 is vacuous. *)
 From Coq Require Import NArith List Bool.
 Require Import SDS.Model.Mach SDS.Model.Bits SDS.Model.Raw SDS.Model.IntVec SDS.Model.BitVec SDS.Model.Iters.
 Require Export SDS.Spec.Deque SDS.Spec.IterRefs.
 Require Import SDS.Spec.BitSeq SDS.Check.Common.
 Require SDS.Model.RL SDS.Model.RLIters.   (* qualified: Model/RL.v reuses record names of Model/BitVec.v *)
+Require SDS.Model.WM SDS.Model.WMIters SDS.Check.WMBuild.   (* qualified: the wavelet matrix rebuilt by Model/WM.v *)
 Import ListNotations.
 Open Scope N_scope.
 
@@ -153,7 +156,22 @@ Definition model_ok (sp : selpath) (m : mode) (s : src) (e : entry) (runs : list
           end
       | _ => false
       end
-  | _ => true   (* no model of the sparse / wavelet-matrix iterators yet *)
+  | SWM xs =>
+      (* WaveletMatrix::from(xs), rebuilt by the model (Check/WMBuild.v) *)
+      match WMBuild.build_wm sp m xs with
+      | Ok w =>
+          match e with
+          | EIter => forallb (run_agrees (WMIters.wm_ai_step m w) enc_item (WMIters.wm_ai_start w)) runs
+          | EInto => forallb (run_agrees (WMIters.wm_into_step m w) enc_item 0) runs
+          | _ =>
+              match WMIters.wm_vi_entry m w e with
+              | Some (Ok it) => forallb (run_agrees (WMIters.wm_vi_step sp m w) (fun x => x) it) runs
+              | _ => false
+              end
+          end
+      | _ => false
+      end
+  | _ => true   (* no model of the sparse iterators yet *)
   end.
 
 Definition runs_of_case (c : case) : list (list call * list obs) :=
